@@ -9,6 +9,7 @@ import (
 	"verif/engine/core"
 	"verif/engine/pagedrv"
 	"verif/engine/par"
+	"verif/engine/queuedrv"
 	"verif/engine/xstate"
 )
 
@@ -243,4 +244,174 @@ func tracePath(raw json.RawMessage) []string {
 
 func init() {
 	register(&Check{ID: "XTRC", Level: "model_checking", Replay: tracePath, Run: func(*core.Ctx, *par.Pool) {}})
+}
+
+// ---- queue-level random walker (diagnostic only, see above) ----
+
+type QRandWalkTask struct {
+	Type string   `json:"type"`
+	Cfg  QCfgSpec `json:"cfg"`
+	Seed int64    `json:"seed"`
+	Len  int      `json:"len"`
+}
+
+type QRandWalkResult struct {
+	EngineError string              `json:"engine_error,omitempty"`
+	Path        []Q                 `json:"path"`
+	Viol        []pagedrv.Violation `json:"viol,omitempty"`
+}
+
+func init() {
+	TaskHandlers["qrandwalk"] = handleQRandWalk
+	register(&Check{ID: "XQRND", Level: "model_checking", Replay: replayQueue, Run: runQRandWalk})
+}
+
+func handleQRandWalk(raw []byte) interface{} {
+	var t QRandWalkTask
+	if err := json.Unmarshal(raw, &t); err != nil {
+		return QRandWalkResult{EngineError: err.Error()}
+	}
+	cfg, err := t.Cfg.cfg()
+	if err != nil {
+		return QRandWalkResult{EngineError: err.Error()}
+	}
+	rng := rand.New(rand.NewSource(t.Seed))
+	alpha := queueAlphabet(cfg.File.PageSize, false)
+	if cfg.File.MaxPages > 0 { // fill-until-full only on bounded files
+		alpha = append(alpha, fillAlphabet(t.Cfg, false)...)
+	}
+	var res QRandWalkResult
+	var env *queuedrv.Env
+	sv := xstate.Run(func() {
+		env, err = queuedrv.New(cfg)
+		if err != nil {
+			return
+		}
+		for i := 0; i < t.Len && !env.Dead && len(env.Viol) == 0; i++ {
+			var en []Q
+			for _, op := range alpha {
+				if env.Enabled(op) {
+					en = append(en, op)
+				}
+			}
+			if len(en) == 0 {
+				break
+			}
+			op := en[rng.Intn(len(en))]
+			res.Path = append(res.Path, op)
+			env.Apply(op)
+			env.CheckCounters(op.String())
+			if cfg.File.MaxPages > 0 {
+				env.CheckSpace(op.String())
+			}
+		}
+		if !env.Dead && len(env.Viol) == 0 {
+			drainProbe(env)
+		}
+	})
+	if err != nil {
+		return QRandWalkResult{EngineError: err.Error()}
+	}
+	res.Viol = append(env.Viol, sv...)
+	return res
+}
+
+func runQRandWalk(ctx *core.Ctx, pool *par.Pool) {
+	ctx.SetBudget(15 * time.Minute)
+	var tasks [][]byte
+	var meta []QRandWalkTask
+	for _, c := range []QCfgSpec{{File: "A", Buffer: 5}, {File: "C", Buffer: 5}, {File: "B", Buffer: 6}, {File: "P17", Buffer: 5}, {File: "P21", Buffer: 5}, {File: "D", Buffer: 3}, {File: "A", Buffer: 2}} {
+		for s := int64(1); s <= 3000; s++ {
+			t := QRandWalkTask{Type: "qrandwalk", Cfg: c, Seed: s, Len: 60}
+			raw, _ := json.Marshal(t)
+			tasks = append(tasks, raw)
+			meta = append(meta, t)
+		}
+	}
+	n := 0
+	pool.Run(tasks, ctx.Deadline, 2*time.Minute, func(i int, out []byte, terr *par.TaskError) {
+		if terr != nil {
+			ctx.EngineError("qrandwalk %v: %s %s", meta[i], terr.Msg, terr.Stderr)
+			return
+		}
+		var r QRandWalkResult
+		json.Unmarshal(out, &r)
+		n++
+		for _, v := range r.Viol {
+			ctx.Violate(v.Class, fmt.Sprintf("queue %s seed %d after [%s]: %s", meta[i].Cfg, meta[i].Seed, queuedrv.PathString(r.Path), v.Msg),
+				QPathDoc{Kind: "qpath", Cfg: meta[i].Cfg, Path: r.Path, Space: true})
+		}
+	}, nil)
+	ctx.Set("walks", n)
+}
+
+func minimizeQDoc(raw json.RawMessage) []string {
+	var d QPathDoc
+	json.Unmarshal(raw, &d)
+	cfg, err := d.Cfg.cfg()
+	if err != nil {
+		return []string{"violation: bad cfg"}
+	}
+	classOf := func(path []Q) string {
+		var env *queuedrv.Env
+		valid := true
+		sv := xstate.Run(func() {
+			var err error
+			env, err = queuedrv.New(cfg)
+			if err != nil {
+				valid = false
+				return
+			}
+			for _, op := range path {
+				if env.Dead || len(env.Viol) > 0 {
+					return
+				}
+				if !env.Enabled(op) {
+					valid = false
+					return
+				}
+				env.Apply(op)
+				env.CheckCounters(op.String())
+				if cfg.File.MaxPages > 0 {
+					env.CheckSpace(op.String())
+				}
+			}
+		})
+		if !valid || env == nil {
+			return ""
+		}
+		v := append(env.Viol, sv...)
+		if len(v) == 0 {
+			return ""
+		}
+		return v[0].Class
+	}
+	path := d.Path
+	want := classOf(path)
+	fmt.Printf("class %q, %d ops\n", want, len(path))
+	if want == "" {
+		return nil
+	}
+	for chunk := len(path) / 2; chunk >= 1; {
+		progress := false
+		for i := 0; i+chunk <= len(path); {
+			cand := append(append([]Q{}, path[:i]...), path[i+chunk:]...)
+			if classOf(cand) == want {
+				path = cand
+				progress = true
+			} else {
+				i++
+			}
+		}
+		if !progress || chunk > len(path) {
+			chunk /= 2
+		}
+	}
+	js, _ := json.Marshal(map[string]interface{}{"class": want, "property": "C05", "replay": QPathDoc{Kind: "qpath", Cfg: d.Cfg, Path: path, Space: true}})
+	fmt.Printf("minimal (%d ops): %s\n%s\n", len(path), queuedrv.PathString(path), js)
+	return []string{"violation: class=" + want + " minimal path: " + queuedrv.PathString(path)}
+}
+
+func init() {
+	register(&Check{ID: "XQMIN", Level: "model_checking", Replay: minimizeQDoc, Run: func(*core.Ctx, *par.Pool) {}})
 }
